@@ -114,10 +114,13 @@ def real_op(rt, T, td, opn, a, p):
         return rt.np_amin(a[0], axis=p.get('axis'), keepdims=bool(p.get('keepdims')))
     if opn == 'amax':
         return rt.np_amax(a[0], axis=p.get('axis'), keepdims=bool(p.get('keepdims')))
-    if opn == 'argmin':
-        return rt.np_argmin(a[0], axis=p.get('axis'))
-    if opn == 'argmax':
-        return rt.np_argmax(a[0], axis=p.get('axis'))
+    if opn in ('argmin', 'argmax'):
+        f = rt.np_argmin if opn == 'argmin' else rt.np_argmax
+        if p.get('pick') is None:
+            return f(a[0], axis=p.get('axis'))
+        r = f(a[0], axis=p.get('axis'), keepdims=bool(p.get('keepdims')), arg_unary=bool(p.get('unary')),
+              arg_only=p['pick'] == 'u')
+        return r if p['pick'] == 'u' else r[1]
     if opn == 'minimum':
         return rt.np_minimum(a[0], a[1])
     if opn == 'maximum':
@@ -297,10 +300,24 @@ def ref_op(td, opn, a, p):
             return wrap(np.amin(v, axis=p.get('axis'), keepdims=bool(p.get('keepdims'))))
         if opn == 'amax':
             return wrap(np.amax(v, axis=p.get('axis'), keepdims=bool(p.get('keepdims'))))
-        if opn == 'argmin':
-            return wrap(np.argmin(v, axis=p.get('axis')))
-        if opn == 'argmax':
-            return wrap(np.argmax(v, axis=p.get('axis')))
+        if opn in ('argmin', 'argmax'):
+            f, g = (np.argmin, np.amin) if opn == 'argmin' else (np.argmax, np.amax)
+            if p.get('pick') is None:
+                return wrap(f(v, axis=p.get('axis')))
+            if p['pick'] == 'm':
+                # extreme values: compared in the keepdims layout (or as a scalar for axis=None) only
+                return wrap(g(v, axis=p.get('axis'), keepdims=bool(p.get('keepdims'))))
+            if not p.get('unary'):
+                return wrap(f(v, axis=p.get('axis'), keepdims=bool(p.get('keepdims'))))
+            # unit vectors: same shape as the (possibly flattened) input, a one along the axis at the arg
+            if p.get('axis') is None:
+                u = np.zeros(v.size, dtype=object)
+                u[f(v)] = 1
+                return wrap(u)
+            ix = np.expand_dims(f(v, axis=p['axis']), p['axis'])
+            u = np.zeros(v.shape, dtype=object)
+            np.put_along_axis(u, ix, 1, p['axis'])
+            return wrap(u)
         if opn == 'sort':
             return wrap(np.sort(v, axis=p.get('axis', -1)))
         if opn == 'minimum':
@@ -498,9 +515,41 @@ def rand_vals(rng, td, n, small=True):
     return [rng.choice((0, 1, -1, rng.randint(-lim, lim))) for _ in range(n)]
 
 
+def gen_empty(rng, cfg, td):
+    """Reductions over an empty array (empty sum 0, empty product 1, all() true, any() false), as NumPy defines them."""
+    kind = td['kind']
+    shp = rng.choice(([3], [2, 2], [2, 3]))
+    size = int(np.prod(shp))
+    vals = rand_vals(rng, td, size)
+    if kind != 'fxp' and rng.random() < 0.5:
+        vals = [rng.randint(0, 1) for _ in vals]
+    stmts = [['input', 'a1', [], {'sender': rng.randrange(cfg.m), 'shape': shp, 'values': vals, 'dummy': rand_vals(rng, td, size)}],
+             ['getitem', 'a2', ['a1'], {'key': [[0, 0]]}]]
+    ops = ['sum', 'sum_method', 'concatenate', 'eq', 'add']
+    if kind != 'fxp':
+        ops += ['prod', 'prod']
+        if all(v in (0, 1) for v in vals):
+            ops += ['all', 'any', 'all', 'any']
+    opn = rng.choice(ops)
+    if opn in ('concatenate',):
+        stmts.append([opn, 'a3', ['a2', 'a1'], {'axis': 0}])
+    elif opn in ('eq', 'add'):
+        stmts.append([opn, 'a3', ['a2', 'a2'], {}])
+    else:
+        stmts.append([opn, 'a3', ['a2'], {'axis': rng.choice([None, 0] + ([1, -1] if len(shp) > 1 else []))}])
+    prog = {'family': NAME, 'type': td, 'stmts': stmts, 'outputs': ['a3'], 'tags': []}
+    reference(prog)     # must be decidable
+    return prog
+
+
 def gen(rng, cfg, tier='quick', kf=(), effects=False):
     td = rand_type(rng)
     kind = td['kind']
+    if not kf and not effects and rng.random() < 0.04:
+        try:
+            return gen_empty(rng, cfg, td)
+        except (Undecided, Skip, ValueError, IndexError, TypeError):
+            pass
     for _attempt in range(50):
         stmts = []
         A = []       # array vars
@@ -590,6 +639,10 @@ def gen(rng, cfg, tier='quick', kf=(), effects=False):
                     pr = {'axis': rng.choice(axes)}
                     if opn in ('amin', 'amax'):
                         pr['keepdims'] = rng.random() < 0.3
+                    if opn in ('argmin', 'argmax') and rng.random() < 0.5:
+                        pr['pick'] = rng.choice(('u', 'u', 'm'))
+                        pr['unary'] = rng.random() < 0.4
+                        pr['keepdims'] = rng.random() < 0.5 if pr['pick'] == 'u' else (pr['axis'] is not None)
                     if opn in ('all', 'any'):
                         # needs a bit array
                         cands = [v for v in A if env_[v][0].size and all(b in (0, 1) for b in env_[v][0].flat)]
